@@ -19,7 +19,7 @@ class C18(BaseCheck):
              'scales.varz:VarzAggregator.CalculatePercentile')
   REQUIRED_ANCHORS = ANCHORS
   REQUIRED_CLASSES = ('counter', 'gauge', 'percentile:below-reservoir', 'percentile:above-reservoir',
-                      'full-stack', 'percentile:busy-after-full')
+                      'full-stack', 'percentile:busy-after-full', 'zero-increment')
   ASSUMPTIONS = ('percentile bounds allow 1e-9 relative slack for the linear interpolation',)
   QUICK_CASES = 720
   THOROUGH_CASES = 40000
@@ -64,13 +64,15 @@ class C18(BaseCheck):
       fresh_uses[t] = fresh_uses.get(t, 0) + 1
       k = rng.choice(['cnt', 'rate', 'agg', 'g', 'cnt-class', 'g'])
       if k == 'cnt':
-        amt = rng.choice([1, 1, 2, 5])
+        amt = rng.choice([1, 1, 2, 5, 0, -1])
+        if amt == 0:
+          classes.add('zero-increment')
         V(src).cnt(amt) if amt != 1 else V(src).cnt()
         model_sum[('cnt', t)] = model_sum.get(('cnt', t), 0) + amt
         used.setdefault('cnt', set()).add(t)
         kinds_used.add('counter')
       elif k == 'cnt-class':
-        amt = rng.randint(1, 3)
+        amt = rng.randint(-1, 3)
         V.cnt(src, amt)
         model_sum[('cnt', t)] = model_sum.get(('cnt', t), 0) + amt
         used.setdefault('cnt', set()).add(t)
@@ -81,7 +83,7 @@ class C18(BaseCheck):
         used.setdefault('rate', set()).add(t)
         kinds_used.add('rate')
       elif k == 'agg':
-        amt = rng.choice([0.5, 0.25, 2.0, 8.0])   # exactly representable: sums are exact
+        amt = rng.choice([0.5, 0.25, 2.0, 8.0, 0.0])   # exactly representable: sums are exact
         V(src).agg(amt)
         model_sum[('agg', t)] = model_sum.get(('agg', t), 0) + amt
         used.setdefault('agg', set()).add(t)
